@@ -27,7 +27,7 @@ pub struct Case {
 }
 
 fn strat(leaf_edits: usize) -> impl Strategy<Value = Case> {
-    (any::<u16>(), 0u8..5, 0u8..6, 1u16..=256, 0u8..6, any::<u32>()).prop_map(move |(modulus, a_class, w_class, k, x_class, seed)| Case { modulus, a_class, w_class, k, x_class, seed, leaf_edits })
+    (any::<u16>(), 0u8..5, 0u8..10, 1u16..=256, 0u8..6, any::<u32>()).prop_map(move |(modulus, a_class, w_class, k, x_class, seed)| Case { modulus, a_class, w_class, k, x_class, seed, leaf_edits })
 }
 
 #[derive(Clone)]
@@ -46,13 +46,22 @@ fn interval(c: &Case, st: &mut u64) -> (Integer, Integer) {
         3 => clmath::int_from_seed(st, 200),
         _ => clmath::int_from_seed(st, 300),
     };
-    let w = match c.w_class % 6 {
+    let w = match c.w_class % 10 {
         0 => Integer::from(1),
         1 => Integer::from(2),
         2 => Integer::from(3),
         3 => Integer::from(1) << (c.k as u32),
         4 => (Integer::from(1) << 256) - 1u32,
-        _ => clmath::int_from_seed(st, c.k as u32) + 1u32,
+        5 => clmath::int_from_seed(st, c.k as u32) + 1u32,
+        6 => ((Integer::from(1) << (c.k as u32)) - 1u32).max(Integer::from(1)),
+        7 => (Integer::from(1) << (c.k as u32)) + 1u32,
+        // next to a perfect square s^2 (s of about k/2 bits): s^2 - 1, s^2, s^2 + 1
+        w89 => {
+            let mut s_ = clmath::int_from_seed(st, (c.k as u32 + 1) / 2 + 1);
+            s_.set_bit((c.k as u32 + 1) / 2, true);
+            let sq = s_.square();
+            if w89 == 8 { sq - 1u32 } else if c.seed % 2 == 0 { sq } else { sq + 1u32 }
+        }
     };
     let b = (&a + &w).complete();
     (a, b)
@@ -131,7 +140,7 @@ fn check_one(rep: &Report, ck: &str, c: &Case, params: &[Params]) -> CheckResult
     };
     rep.eval(ck, 1);
     if !ver(&proof, &p.g, &p.h, &p.n, &a, &b) {
-        return rep.fail(ck, "honest-range-proof-rejected", format!("x class {} in an interval of width class {} ({} bits)", c.x_class % 6, c.w_class % 6, (&b - &a).complete().significant_bits()), cj(json!(null)));
+        return rep.fail(ck, "honest-range-proof-rejected", format!("x class {} in an interval of width class {} ({} bits)", c.x_class % 6, c.w_class % 10, (&b - &a).complete().significant_bits()), cj(json!(null)));
     }
     let pj = serde_json::to_value(&proof).unwrap();
     rep.eval(ck, 1);
@@ -245,11 +254,11 @@ fn check_one(rep: &Report, ck: &str, c: &Case, params: &[Params]) -> CheckResult
     }
 
     // the three (interval, x) settings the crate itself exercises are the trivial ones
-    let crate_interval = (c.a_class % 5 == 0 && c.w_class % 6 == 4) || (c.a_class % 5 == 2 && c.w_class % 6 == 3 && c.k == 257);
+    let crate_interval = (c.a_class % 5 == 0 && c.w_class % 10 == 4) || (c.a_class % 5 == 2 && c.w_class % 10 == 3 && c.k == 257);
     if !(crate_interval && c.x_class % 6 == 5) {
         rep.nontrivial(ck, &json!({"c": c, "params": p.id}));
     }
-    rep.class(&format!("width-class={}", ["1", "2", "3", "2^k", "2^256-1", "random"][(c.w_class % 6) as usize]));
+    rep.class(&format!("width-class={}", ["1", "2", "3", "2^k", "2^256-1", "random", "2^k-1", "2^k+1", "s^2-1", "s^2 / s^2+1"][(c.w_class % 10) as usize]));
     rep.class(&format!("x={}", ["a", "a+1", "mid", "b-1", "b", "random"][(c.x_class % 6) as usize]));
     rep.class(&format!("a-class={}", c.a_class % 5));
     rep.sample(ck, json!({"params": p.id, "a": short(&a), "b": short(&b), "x": short(&x), "leaves": leaves.len()}));
@@ -281,21 +290,51 @@ pub fn run(ctx: &Ctx, rep: &Report) -> Meta {
     // the grid of boundary positions: every x class x every width class, a = 0 and a = 2^257 + 1
     let mut grid = vec![];
     let mut k = 0u32;
-    for w in 0..6u8 {
+    for w in 0..10u8 {
         for xc in 0..6u8 {
             for ac in [0u8, 2, 3] {
                 k += 1;
                 if ctx.tier == Tier::Quick && ac == 3 && (w + xc) % 2 == 1 {
                     continue;
                 }
-                grid.push(Case { modulus: (k * 7919) as u16, a_class: ac, w_class: w, k: [1u16, 2, 7, 64, 255, 256][(k % 6) as usize], x_class: xc, seed: (ctx.seed as u32).wrapping_add(k), leaf_edits: ctx.tier.pick(6, 40) });
+                grid.push(Case { modulus: (k * 7919) as u16, a_class: ac, w_class: w, k: [1u16, 2, 7, 64, 255, 256, 59, 60, 63, 128][(k % 10) as usize], x_class: xc, seed: (ctx.seed as u32).wrapping_add(k), leaf_edits: ctx.tier.pick(6, 40) });
             }
         }
     }
     par_items(ctx, rep, "boundary-grid", &grid, |c| check_one(rep, "boundary-grid", c, &params));
     if !rep.aborted() {
-        rep.exhaustive("x position {a, a+1, mid, b-1, b, random} x width class {1, 2, 3, 2^k, 2^256-1, random} x a in {0, 2^257+1, random}".into());
+        rep.exhaustive("x position {a, a+1, mid, b-1, b, random} x width class {1, 2, 3, 2^k, 2^256-1, random, 2^k-1, 2^k+1, s^2-1, s^2 / s^2+1} x a in {0, 2^257+1, random}".into());
     }
+    // every width size: 2^k - 1, 2^k + 1 and the neighbours of a perfect square of k bits, for every k (an integer
+    // square root or a bit length computed in machine words goes wrong at one particular size); honest proofs at
+    // both ends of the interval must verify
+    let ks: Vec<u32> = (2..=ctx.tier.pick(130u32, 300u32)).collect();
+    par_items(ctx, rep, "width-sweep", &ks, |&kk| {
+        let p = &params[(kk as usize) % params.len()];
+        let mut st = ctx.seed ^ ((kk as u64) << 20) | 1;
+        let mut s_ = clmath::int_from_seed(&mut st, kk / 2 + 1);
+        s_.set_bit(kk / 2, true);
+        let sq = s_.clone().square();
+        // the largest and the smallest root whose square has kk or kk + 1 bits
+        let top: Integer = (Integer::from(1) << ((kk + 1) / 2)) - 1u32;
+        for (wn, w) in [("2^k-1", (Integer::from(1) << kk) - 1u32), ("2^k+1", (Integer::from(1) << kk) + 1u32), ("s^2-1", (&sq - 1u32).complete()), ("s^2", sq.clone()), ("(2^ceil(k/2)-1)^2-1", top.clone().square() - 1u32), ("(2^ceil(k/2))^2-1", (top + 1u32).square() - 1u32)] {
+            if w < 1 {
+                continue;
+            }
+            let a = if kk % 3 == 0 { Integer::from(0) } else { clmath::int_from_seed(&mut st, 1 + kk % 200) };
+            let b = (&a + &w).complete();
+            for (xn, x) in [("a", a.clone()), ("b", b.clone())] {
+                let com = commit(p, &x, &mut st);
+                rep.eval("width-sweep", 1);
+                let ok = catch(|| Boudot2000RangeProof::prove::<Sha256>(&x, &com, &p.g, &p.h, &p.n, &a, &b).verify::<Sha256>(&p.g, &p.h, &p.n, &a, &b)).unwrap_or(false);
+                if !ok {
+                    return rep.fail("width-sweep", "honest-range-proof-rejected", format!("x = {} of an interval of width {} with k = {} ({} bits) is refused", xn, wn, kk, w.significant_bits()), json!({"k": kk, "width": w.to_string(), "a": a.to_string(), "x": xn, "params": p.id}));
+                }
+            }
+        }
+        rep.nontrivial("width-sweep", &json!({"k": kk}));
+        Ok(())
+    });
     if !rep.aborted() && rep.class_count("transplant-executed") == 0 {
         out("INCONCLUSIVE property=C16 the harness' recomputation of E_prime / E_a / E_b never reproduced an honest proof: the transplant family could not be assembled");
         std::process::exit(2);
@@ -303,7 +342,7 @@ pub fn run(ctx: &Ctx, rep: &Report) -> Meta {
     let le = ctx.tier.pick(10usize, 0usize);
     run_cases(ctx, rep, "generated", ctx.tier.pick(200, 1500), 40, || strat(le), |c| check_one(rep, "generated", c, &params));
     Meta {
-        rule: "modulus and bases from commitment keys over issuer moduli, issuer (a_0, b) pairs and a commitment key over its own modulus; intervals [a, b] with a in {0, 1, 2^257+1, random} and b - a in {1, 2, 3, 2^k (k = 1..256), 2^256-1, random}; \
+        rule: "modulus and bases from commitment keys over issuer moduli, issuer (a_0, b) pairs and a commitment key over its own modulus; intervals [a, b] with a in {0, 1, 2^257+1, random} and b - a in {1, 2, 3, 2^k (k = 1..256), 2^256-1, random, 2^k-1, 2^k+1, s^2-1, s^2, s^2+1}; width-sweep: honest proofs at both ends of intervals of width 2^k-1, 2^k+1, s^2-1, s^2 and the squares of 2^ceil(k/2)-1 and 2^ceil(k/2) minus one for EVERY k in 2..=130 (quick) / 300 (thorough); \
                x in {a, a+1, mid, b-1, b, random}; positive: verify(prove(x)) true and the proof survives JSON; negative: (i) the honest prover on a-1, b+1, a-2^k, b+2^k, b+width yields no accepted proof (a panic counts as no proof), \
                (ii) other bounds / exchanged or squared bases / other modulus, (iii) integer leaves perturbed by +1, -1, := 0, := sibling, one high bit flipped, +2^k for k in {128, 160, 256, 300} (sampled in quick, all leaves in thorough), \
                (iv) transplant of the sub-proofs onto commitments to b+1, a far value, a random group element, the same value with other randomness, with and without overwriting the square proofs' E; \
@@ -314,6 +353,23 @@ pub fn run(ctx: &Ctx, rep: &Report) -> Meta {
 }
 
 pub fn replay(ctx: &Ctx, rep: &Report, ck: &str, case: &Value) -> CheckResult {
+    if ck == "width-sweep" {
+        let perr = || Fail { check: ck.into(), site: "replay-parse".into(), msg: "width-sweep case".into(), case: case.clone() };
+        let w: Integer = case["width"].as_str().and_then(|x| x.parse().ok()).ok_or_else(perr)?;
+        let a: Integer = case["a"].as_str().and_then(|x| x.parse().ok()).ok_or_else(perr)?;
+        let b = (&a + &w).complete();
+        let x = if case["x"] == "a" { a.clone() } else { b.clone() };
+        let keys = key_pool(ClSuite::CL1024, 0, 2, ctx.seed);
+        let params = make_params(&keys, None);
+        let mut st = 77u64;
+        for p in &params {
+            let com = commit(p, &x, &mut st);
+            if !catch(|| Boudot2000RangeProof::prove::<Sha256>(&x, &com, &p.g, &p.h, &p.n, &a, &b).verify::<Sha256>(&p.g, &p.h, &p.n, &a, &b)).unwrap_or(false) {
+                return Err(Fail { check: ck.into(), site: "honest-range-proof-rejected".into(), msg: format!("width {} bits", w.significant_bits()), case: case.clone() });
+            }
+        }
+        return Ok(());
+    }
     let c: Case = serde_json::from_value(case["case"].clone()).map_err(|e| Fail { check: ck.into(), site: "replay-parse".into(), msg: e.to_string(), case: case.clone() })?;
     let keys = key_pool(ClSuite::CL1024, 0, 2, ctx.seed);
     let params = make_params(&keys, None);
